@@ -32,7 +32,9 @@ def paired(run_):
             tb = (b[2] or {}).get("trace")
             fa = a[1].split(" rows=")[0]
             fb = b[1].split(" rows=")[0]
-            if a[0] != b[0] or ta != tb or fa != fb:
+            # which scripts run, not in which order: the order of the targets handed to one redo-unlocked call
+            # comes from a HashSet and differs from process to process
+            if a[0] != b[0] or sorted(ta or []) != sorted(tb or []) or fa != fb:
                 out["violations"].append({"oracle": "inserting query commands changed what later commands do",
                                           "history": lines[i], "without_queries": l2, "step_without_queries": k,
                                           "with": {"result": a[0], "trace": ta, "files": fa}, "without": {"result": b[0], "trace": tb, "files": fb}})
